@@ -52,6 +52,15 @@ func init() {
 			"Not decided: convergence to the source's chain, liveness, schedule-dependent reorg ranges."
 		syncFn := func(name string) *ssa.Function { return p.Func("sync", "Synchronizer", name) }
 
+		// (no-underflow) heights are uint64: `remoteHeight - 1` and the like in the reorg walk-back must be guarded against 0 —
+		// a wrapped "last possibly valid height" makes the revert task ask the source for heights it does not have and give up,
+		// on every retry (defect F28: the source's chain is a single, different block 0).
+		c.usubRule("no-underflow", func(fn *ssa.Function) bool {
+			return pkgRelOf(fn) == "sync" && !strings.HasSuffix(p.Pos(fnPos(fn)), "_test.go") && !p.InFixture(fnPos(fn))
+		}, map[string]string{
+			"(*sync.Synchronizer).storeTask: committedBlock.Block.Header.Number - 2": "reviewed: wraps only for block 0 or 1 after a parent mismatch, when the local head is block 0 or absent; the wrapped bound reads 'compare every local block with the source', and the source can answer for height 0 (unlike F28, where the local head is above the source's)",
+		})
+
 		// who-stores
 		type who struct {
 			recv, name string
